@@ -767,3 +767,18 @@ package rlwe
 //@   trusted at call sites outside this package's own contracts: an encryption of zero into the receiver (verified per receiver kind under encryptZeroSk#ciphertext, encryptZeroSkFromC1(QP), encryptZeroPkNoP); the receiver must be an actual object, not a nil pointer in an interface
 //@   requires !isnil(unbox(ct))
 //@   assigns
+
+// ---- Element.Resize itself (property C09, "no residue"): the components an element GAINS are new polynomials
+// ---- holding zero - not whatever an earlier, larger use left behind in the backing array - and the components
+// ---- it keeps are unchanged.  Call sites use the trusted description above; this is its verification for
+// ---- the shapes that occur (one component gained, one dropped, none).
+//@ afunc Element.Resize#poly
+//@   property C09
+//@   only ring.Poly
+//@   case len(op.Value) == 2 && degree == 2
+//@   case len(op.Value) == 3 && degree == 1
+//@   case len(op.Value) == 2 && degree == 1
+//@   requires len(op.Value[0].Coeffs) >= 1 && level >= 0
+//@   ensures len(op.Value) == degree + 1
+//@   ensures val(op.Value[0]) == old(val(op.Value[0])) && val(op.Value[1]) == old(val(op.Value[1]))
+//@   ensures implies(degree == 2, val(op.Value[2]) == 0)
